@@ -125,6 +125,13 @@ def rnd_library(rng, dirpath, with_uq=False):
         # random symmetric PSD: A'A with small integers /10
         A = [[rng.randint(-9, 9) / 10.0 for _ in range(n)] for _ in range(n)]
         M = [[round(sum(A[r][i] * A[r][j] for r in range(n)), 6) for j in range(n)] for i in range(n)]
+        if rng.random() < 0.4:
+            # not symmetric as stored: an antisymmetric part leaves x'Mx (and its sign) unchanged
+            for i in range(n):
+                for j in range(i + 1, n):
+                    k_ = rng.choice([0.0, 0.25, -0.5, 1.0])
+                    M[i][j] = round(M[i][j] + k_, 6)
+                    M[j][i] = round(M[j][i] - k_, 6)
         rm = rnd_corr(rng, allow_missing=False)
         if not rm['Ts']:
             rm['Ts'], rm['Cps'] = [300.0, 400.0, 500.0], [0.5, 0.4, 0.3]
